@@ -1,5 +1,6 @@
 import Sgz.Model.Reader
 import Sgz.Model.Version
+import Sgz.Model.Config
 /-!
 Line-protocol driver over the executable model (`Sgz/Model`, Mathlib-free).  One request per line, one answer per
 line.  The Python harness sends the same request to the real implementation and diffs canonical answers.
@@ -88,10 +89,20 @@ def handleVer (ws : List String) : String :=
     | none => "err"
   | _ => "bad-op"
 
+def handleCfg (ws : List String) : String :=
+  match ints ws with
+  | some [num, den, b0, b1, b2, is2d] =>
+    if den ≤ 0 then "bad-op" else
+    match Config.resolve { num := num, den := den.toNat } b0 b1 b2 (is2d == 1) with
+    | .ok c => s!"ok {c.q} {c.b0} {c.b1} {c.b2}"
+    | .error e => s!"err {e}"
+  | _ => "bad-op"
+
 def handle (line : String) : String :=
   match (line.trimAscii.toString.splitOn " ").filter (· ≠ "") with
   | "read" :: rest => handleRead rest
   | "ver" :: rest => handleVer rest
+  | "cfg" :: rest => handleCfg rest
   | ["ping"] => "pong"
   | _ => "bad-op"
 
